@@ -72,6 +72,39 @@ CHECKS['C20'] = dict(
     note='Trusted: SX engine (witness replay), z3, the definition of the soft-fork op family, the step-to-script induction argument. Finding '
          'F6c (NOP count >= 128 did not round-trip) was repaired in /repo (fix: commit 03d2a97).',
     technique=TECH)
+CHECKS['C01'] = dict(
+    text='(1) hand-off lemma: the real run_auth_scripts / run_script are executed with each script run replaced by a summary (arbitrary bounded '
+         'stack effect, cache writes, RETURN, raise, call budget, definitions; symbolic stack and call limits; lists of 1..3 scripts, 4 thorough; '
+         "initial cache values with and without a 'returned' entry): never raises, verdict true iff no run raised and the stack is exactly "
+         '[0xff], and every script is handed a clean state (no return flag, pointer 0, shared stack / cache / definitions / budget). '
+         '(2) return-flag invariant for one step of every opcode (flag set => tape terminated). (3) end-to-end with real nested execution: '
+         '13 witness programs with RETURN at every placement x 7 lock templates and locks of 1..2 (thorough 3) arbitrary bytes, verdict '
+         'compared with the channel oracle (run_script + run_tape composed by hand).',
+    design_ref='DESIGN.md section 4 C01',
+    note='Trusted: SX engine (witness replay on the end-to-end runs), z3, the P2 summary and the induction argument that combines (1) and (2). '
+         'Findings F1 and F2 were repaired in /repo (fix: commits 1bec7ec, b42311e).',
+    technique=TECH)
+CHECKS['C09'] = dict(
+    text='Per construct (IF, IF_ELSE, TRY/EXCEPT, LOOP, DEF+CALL, EVAL) one step with the nested run summarised: for every flag 0..10 an '
+         'arbitrary boolean, arbitrary thresholds, disallow_OP_EVAL present/absent and eval_return arbitrary, the flags computed by the real '
+         "set_tape_flags for the body, its plugins and its contracts equal the parent's and the parent's flags are unchanged (induction over "
+         'nesting). Signature-related instructions call the signature-extension plugin exactly once. OP_SET_FLAG / OP_UNSET_FLAG with a symbolic '
+         'operand of 0..3 bytes change exactly the named integer flag. End-to-end: 170 nestings up to depth 2 (thorough: plus depth 3) around '
+         'flag / plugin / contract probes with real nested execution.',
+    design_ref='DESIGN.md section 4 C09',
+    note='Trusted: SX engine, z3, the P2 summary. Findings F4a/b/c were repaired in /repo (fix: commits 7cf885b, 79abb62, 5f96ea0).',
+    technique=TECH)
+CHECKS['C12'] = dict(
+    text='decompile_script is executed symbolically (a) on every byte string of length 1..2 (3 thorough; plus all 3-byte strings starting with '
+         'OP_PUSH2 in quick) under a monitor on Tape.read: it returns or raises, never reads with a negative size, and compile(listing) is a '
+         'fixpoint of one more decompile/compile round; (b) for every opcode with exact-size symbolic operands (size fields on both sides of '
+         '2^7, 2^8, 2^15, 2^16; block bodies from a fixed set) embedded between two other instructions: the listing names the instruction '
+         'and recompiles, through the real compile_script on the placeholder text, to the identical bytes.',
+    design_ref='DESIGN.md section 4 C12',
+    note='Trusted: SX engine incl. the placeholder-string model (every path is validated by a concrete witness replay of decompile), z3. Termination '
+         'for arbitrary longer strings rests on the per-instruction progress shown in (b). Findings F6b and F6c were repaired in /repo '
+         '(fix: commits 3859cc9, 03d2a97).',
+    technique=TECH)
 NOT_APPLICABLE = {}
 NOTES = ('Exit codes of every check: 0 held on everything explored; 1 + VIOLATION line for a counterexample that was '
          'replayed on the real package and is not a listed known finding; 2 harness error / unsupported construct / '
